@@ -1,6 +1,9 @@
 package checks
 
 import (
+	"crypto/sha1"
+	"encoding/hex"
+	"encoding/json"
 	"fmt"
 	"os"
 	"strings"
@@ -80,6 +83,8 @@ func RunH(spec *HSpec, env *Env) *Result {
 	}
 	coreCache := map[string]string{}
 	coreSeen := map[string]int{}
+	base := LoadInstances(spec.ID)
+	record := os.Getenv("VERIF_RECORD_INSTANCES") != ""
 	scs := spec.Scenarios(env.Tier)
 	if f := os.Getenv("VERIF_FILTER"); f != "" {
 		// development aid: restrict to scenarios whose name contains the filter
@@ -138,21 +143,65 @@ func RunH(spec *HSpec, env *Env) *Result {
 				cfg := sc.Cfg
 				f := Found{Property: spec.ID, Kind: v.Kind, Sig: v.Sig, Detail: v.Detail, Scenario: sc, Cfg: &cfg, Hist: h, Core: v.Core}
 				if f.Core == "" {
+					inst := InstanceKey(sc, h, &v)
+					ck := v.Kind + "|" + v.Sig + "|" + strings.Join(sc.Init, "+") + "|" + opSet(h)
+					if base != nil && !record {
+						if c, ok := base[inst]; ok {
+							// a listed history: no need to minimise it again
+							f.Core, f.KnownInstance, f.Instance = c, true, inst
+							if coreSeen[f.Core] >= 1 {
+								coreSeen[f.Core]++
+								res.Count("known_instances_hit", 1)
+								continue
+							}
+							coreSeen[f.Core]++
+							res.Count("known_instances_hit", 1)
+							res.AddFound(f)
+							continue
+						}
+						ck = "new|" + ck
+					}
 					// Minimise here, in the worker, once per (oracle kind, signature, set of
 					// event kinds): extensions of a violating history are still explored
 					// (a known finding on a prefix must not hide a new violation further
 					// down), so the same root cause shows up many times.
-					ck := v.Kind + "|" + v.Sig + "|" + strings.Join(sc.Init, "+") + "|" + opSet(h)
 					if c, ok := coreCache[ck]; ok {
 						f.Core = c
-						if n := coreSeen[c]; n >= maxFoundPerSig {
-							continue
-						}
 					} else if len(coreCache) < 400 {
 						m := MinimiseH(spec)(&f)
 						m.Core = CoreKey(m)
+						// name a known root cause by what happened in the minimal history
+						if fc := factCore(spec, m); fc != "" {
+							m.Core = fc
+						}
 						coreCache[ck] = m.Core
+						m.Original = hist.HistString(h)
 						f = *m
+					}
+					if record {
+						if res.Instances == nil {
+							res.Instances = map[string]string{}
+						}
+						res.Instances[inst] = f.Core
+					} else if base != nil && !strings.HasSuffix(f.Core, "|array-set-on-previously-moved-element") {
+						f.NewInstance, f.Instance, f.BaseCore = true, inst, f.Core
+						f.Core += "|history-not-in-baseline"
+						// does the ORIGINAL history violate every time?
+						for k := 0; k < 2 && !f.Flaky; k++ {
+							again := false
+							vs, _ := spec.Eval(r, sc, h, nil)
+							for _, w := range vs {
+								if w.Kind == v.Kind && w.Sig == v.Sig {
+									again = true
+								}
+							}
+							if !again {
+								f.Flaky = true
+							}
+						}
+					}
+					if n := coreSeen[f.Core]; n >= maxFoundPerSig {
+						continue
 					}
 				}
 				coreSeen[f.Core]++
@@ -168,6 +217,69 @@ func RunH(spec *HSpec, env *Env) *Result {
 		}
 	}
 	return res
+}
+
+// factCore re-runs the minimal history once and names the violation by a
+// tracked fact when one identifies a known root cause: a Set-by-index on an
+// array element that had been moved before (RGATreeList.Set anchors on the
+// element's original slot).
+func factCore(spec *HSpec, m *Found) string {
+	r, err := Runner()
+	if err != nil {
+		return ""
+	}
+	sc := *m.Scenario
+	if m.Cfg != nil {
+		sc.Cfg = *m.Cfg
+	}
+	hist.Facts = map[string]bool{}
+	spec.Eval(r, &sc, m.Hist, nil)
+	if hist.Facts["array-set-on-moved-element"] && (m.Kind == "diverge" || m.Kind == "sync-error" || m.Kind == "gc-twin" || m.Kind == "server-rebuild-error") {
+		return m.Kind + "|" + m.Sig + "|array-set-on-previously-moved-element"
+	}
+	return ""
+}
+
+// InstanceKey identifies one violating history exactly: oracle kind,
+// signature, initial content, configuration, client counts and every event.
+func InstanceKey(sc *hist.Scenario, h []hist.Event, v *hist.Violation) string {
+	cfg, _ := json.Marshal(sc.Cfg)
+	sum := sha1.Sum([]byte(fmt.Sprintf("%s|%s|%s|%s|N%dL%d|ip%v|%s", v.Kind, v.Sig, strings.Join(sc.Init, "+"), cfg, sc.N, sc.Late, sc.InitialPresence, hist.HistString(h))))
+	return hex.EncodeToString(sum[:8])
+}
+
+var instCache = map[string]map[string]string{}
+
+// LoadInstances reads known_instances/<ID>.txt (nil when the check keeps no
+// instance baseline). Format: "#<n> <core>" lines define cores, "<instance> <n>"
+// lines list the violating histories of the unchanged tree.
+func LoadInstances(id string) map[string]string {
+	if m, ok := instCache[id]; ok {
+		return m
+	}
+	b, err := os.ReadFile(VerifDir() + "/known_instances/" + id + ".txt")
+	if err != nil {
+		instCache[id] = nil
+		return nil
+	}
+	cores := map[string]string{}
+	m := map[string]string{}
+	for _, l := range strings.Split(string(b), "\n") {
+		if l == "" {
+			continue
+		}
+		i := strings.IndexByte(l, ' ')
+		if i < 0 {
+			continue
+		}
+		if l[0] == '#' {
+			cores[l[1:i]] = l[i+1:]
+		} else {
+			m[l[:i]] = cores[l[i+1:]]
+		}
+	}
+	instCache[id] = m
+	return m
 }
 
 // ReproduceH re-runs a found history and reports whether the same kind+sig recurs.
